@@ -31,6 +31,13 @@ class _Timeout(BaseException):
     pass
 
 
+class _Runaway(BaseException):
+    """step budget exhausted: far more base look-ups than the pack has entries (the walk does not terminate)"""
+
+
+RUNAWAY_LIMIT = 2000
+
+
 def _on_alarm(sig, frame):
     raise _Timeout()
 
@@ -193,7 +200,7 @@ def install_direct(objdir, data, entries, idxdata=None):
 
 # --------------------------------------------------------------------------- case execution
 def classify(exc):
-    if isinstance(exc, _Timeout):
+    if isinstance(exc, (_Timeout, _Runaway)):
         return "timeout"
     if isinstance(exc, (MemoryError, RecursionError)):
         return "fatal"
@@ -216,7 +223,7 @@ def timed(fn, soft=None, retry=True):
             signal.setitimer(signal.ITIMER_REAL, 0)
             oc = classify(e)
             wall = (time.perf_counter() - t0) * 1000
-            if oc == "timeout" and retry and attempt == 0:
+            if oc == "timeout" and retry and attempt == 0 and not isinstance(e, _Runaway):
                 continue
             name, msg = type(e).__name__, str(e)[:160]
             e.__traceback__ = None
@@ -256,7 +263,6 @@ def run_ingest(env, path, data, first_id_hex=None, soft=None):
                   junk=junk, packs=[[p["pack"], p["idx"]] for p in packs])
         if same != post:
             ev["self_view"] = same
-        gc.collect()
         shutil.rmtree(d, ignore_errors=True)
         return ev
     if path == "recv":
@@ -274,15 +280,17 @@ def run_ingest(env, path, data, first_id_hex=None, soft=None):
         packs, junk = L.pack_dir_state(od)
         ev.update(outcome=oc, exc=exc, msg=msg, wall_ms=round(wall, 2), pre=pre, post=post, bad=bad, junk=junk,
                   packs=[[p["pack"], p["idx"]] for p in packs])
-        gc.collect()
         shutil.rmtree(d, ignore_errors=True)
         return ev
     raise ValueError(path)
 
 
 def run_direct(env, data, entries, expect_hang=(), idxdata=None, soft=None):
-    """install (pack, idx) by hand and read every listed id through a DiskObjectStore.
-    entries: [(hex id, offset)].  Returns an event with per-entry outcomes."""
+    """install (pack, idx) by hand and read every listed id, each through a DiskObjectStore of its own
+    (= an independent reader).  entries: [(hex id, offset)].  Besides the wall-clock budget a step budget
+    applies: a resolution that performs more than RUNAWAY_LIMIT base look-ups on a pack of a handful of
+    entries is reported as non-terminating."""
+    import dulwich.pack as dp
     from dulwich.object_store import DiskObjectStore
     d = env.fresh("disk")
     raw = [(bytes.fromhex(h), off, 0) for (h, off) in entries]
@@ -291,24 +299,34 @@ def run_direct(env, data, entries, expect_hang=(), idxdata=None, soft=None):
     worst = "ok"
     exc0 = msg0 = None
     wall_total = 0.0
-    st = DiskObjectStore(d)
-    try:
-        for k, (h, off) in enumerate(entries):
-            def rd():
+    orig = dp.PackData.get_object_at
+    for k, (h, off) in enumerate(entries):
+        n = [0]
+
+        def counted(self, offset, n=n):
+            n[0] += 1
+            if n[0] > RUNAWAY_LIMIT:
+                raise _Runaway()
+            return orig(self, offset)
+
+        def rd():
+            st = DiskObjectStore(d)
+            try:
                 t, rawc = st.get_raw(h.encode())
                 return L.oid(t, rawc).hex() == h
-            hang_expected = (k + 1) in expect_hang
-            oc, exc, msg, wall, v = timed(rd, soft=(0.5 if hang_expected else soft), retry=not hang_expected)
-            wall_total += wall
-            per.append([oc if oc != "ok" else ("ok" if v else "misnamed"), exc])
-            if oc in ("timeout", "fatal"):
-                worst, exc0, msg0 = oc, exc, f"reading entry {k + 1}"
-                break                      # the store object may be wedged; one hang per case is enough
-            if oc == "error" and worst == "ok":
-                worst, exc0, msg0 = "error", exc, msg
-    finally:
-        st.close()
-    gc.collect()
+            finally:
+                st.close()
+        dp.PackData.get_object_at = counted
+        try:
+            oc, exc, msg, wall, v = timed(rd, soft=soft, retry=True)
+        finally:
+            dp.PackData.get_object_at = orig
+        wall_total += wall
+        per.append([oc if oc != "ok" else ("ok" if v else "misnamed"), exc])
+        if oc in ("timeout", "fatal") and worst not in ("timeout", "fatal"):
+            worst, exc0, msg0 = oc, exc, f"reading entry {k + 1}" + (f": more than {RUNAWAY_LIMIT} base look-ups" if exc == "_Runaway" else "")
+        if oc == "error" and worst == "ok":
+            worst, exc0, msg0 = "error", exc, msg
     shutil.rmtree(d, ignore_errors=True)
     return {"path": "direct", "outcome": worst, "exc": exc0, "msg": msg0, "wall_ms": round(wall_total, 2), "per": per,
             "pre": [], "post": [], "bad": [], "junk": []}
@@ -337,7 +355,7 @@ def read_idx(env, art, data):
         try:
             ents = [(bytes(e[0]).hex(), e[1], e[2]) for e in ix.iterentries()]
             ix.check()
-            return ents
+            return {"n": len(ents), "same": False}
         finally:
             ix.close()
 
@@ -350,7 +368,6 @@ def read_idx(env, art, data):
             st.close()
     res["verified"] = timed(verified)
     res["use"] = timed(use)
-    gc.collect()
     shutil.rmtree(d, ignore_errors=True)
     return res
 
@@ -372,7 +389,6 @@ def read_loose(env, art, data):
         finally:
             st.close()
     r = {"verified": timed(rd)}
-    gc.collect()
     shutil.rmtree(d, ignore_errors=True)
     return r
 
@@ -385,13 +401,21 @@ def _index_dump(ix):
     return out, ix._version
 
 
+_ORIG = {}
+
+
 def read_index(env, art, data):
     from dulwich.index import Index
     env.n += 1
     p = os.path.join(env.scratch, f"index{env.n}")
+    key = id(art)
+    if key not in _ORIG:
+        with open(p, "wb") as f:
+            f.write(art["data"])
+        _ORIG[key] = _index_dump(Index(p))
     with open(p, "wb") as f:
         f.write(data)
-    r = {"verified": timed(lambda: _index_dump(Index(p)))}
+    r = {"verified": timed(lambda: {"same": _index_dump(Index(p)) == _ORIG[key]})}
     os.unlink(p)
     return r
 
@@ -463,7 +487,6 @@ def read_midx(env, art, data):
         finally:
             st.close()
     r = {"load": timed(load), "use": timed(use)}
-    gc.collect()
     shutil.rmtree(d, ignore_errors=True)
     return r
 
@@ -492,7 +515,6 @@ def read_bitmap_art(env, art, data):
         finally:
             p.close()
     r = {"use": timed(rd)}
-    gc.collect()
     shutil.rmtree(d, ignore_errors=True)
     return r
 
@@ -544,6 +566,139 @@ def bomb_case(env, which):
     return {"which": which, "events": evs, "rss_growth_kb": r1 - r0, "input_kb": len(comp) // 1024}
 
 
+# --------------------------------------------------------------------------- (c) one ingestion under os-level interposition
+KEY_OPS = {"open_excl": "create", "open_w": "create", "chmod": "chmod", "fwrite": "write", "write": "write", "fflush": "flush",
+           "fclose": "close", "close": "close", "unlink": "unlink", "rename": "rename", "replace": "replace"}
+
+
+def role_of(rel):
+    if rel is None:
+        return "other"
+    b = os.path.basename(rel)
+    if b.startswith("tmp_pack_") or (b.startswith("tmp") and b.endswith(".pack")):
+        return "tmp"
+    if b.endswith(".idx.lock"):
+        return "lock"
+    if b.startswith("pack-") and b.endswith(".pack"):
+        return "pack"
+    if b.startswith("pack-") and b.endswith(".idx"):
+        return "idx"
+    return "other"
+
+
+def tx_fault_pred(op, p):
+    # faults hit the calls of the transaction itself; a failing unlink of what it installed (rollback) or of
+    # its lock file cannot be handled by any implementation and is not injected
+    r = role_of(p)
+    return r in ("tmp", "pack", "lock", "idx") and not (op == "unlink" and r in ("pack", "idx", "lock"))
+
+
+def tx_exc(name):
+    import errno
+    return {"EIO": lambda: OSError(errno.EIO, "I/O error (injected)"),
+            "ENOSPC": lambda: OSError(errno.ENOSPC, "No space left on device (injected)"),
+            "KeyboardInterrupt": lambda: KeyboardInterrupt()}[name]()
+
+
+class TxRun:
+    """one ingestion on a fresh copy of the template store, every interposed call logged (and possibly failed)."""
+
+    def __init__(self, env, path, data, fault_k=None, fault_exc=None):
+        from . import sched
+        self.sched = sched
+        self.env, self.path, self.data = env, path, data
+        kind = "repo" if path == "recv" else "disk"
+        self.dir = env.fresh(kind)
+        self.objdir = os.path.join(self.dir, "objects") if kind == "repo" else self.dir
+        self.pre = env.pre_disk()
+        self.pre_files = set(os.listdir(os.path.join(self.objdir, "pack")))
+        fault = sched.Fault(0, fault_k, tx_exc(fault_exc)) if fault_k is not None else None
+        self.world = sched.World(self.dir, observe=self.observe, fault=fault)
+        self.world.fault_pred = tx_fault_pred
+        self.events = []
+        self._last = None
+
+    def fs_state(self):
+        real = self.sched._real
+        listdir = real.get("listdir", os.listdir)
+        pd = os.path.join(self.objdir, "pack")
+        try:
+            names = set(listdir(pd))
+        except OSError:
+            names = set()
+        new = names - self.pre_files
+        try:
+            top = listdir(self.objdir)
+        except OSError:
+            top = []
+        st = {"tmp": any(role_of(n) == "tmp" for n in new) or any(n.startswith("tmp_pack_") for n in top),
+              "pack": any(role_of(n) == "pack" for n in new), "lock": any(role_of(n) == "lock" for n in new),
+              "idx": any(role_of(n) == "idx" for n in new), "partialvisible": False}
+        for n in new:
+            if role_of(n) == "pack" and n[:-5] + ".idx" in new:
+                base = os.path.join(pd, n[:-5])
+                if L.pack_file_class(base + ".pack") != "complete" or L.idx_file_class(base + ".idx", base + ".pack") != "complete":
+                    st["partialvisible"] = True
+        return st
+
+    def observe(self, world, ev):
+        op = ev["op"]
+        if op == "ret" or op not in KEY_OPS:
+            return
+        role = role_of(ev.get("p2") if op in ("rename", "replace") else ev.get("p"))
+        if role == "other":
+            return
+        lab = KEY_OPS[op]
+        if lab in ("rename", "replace"):
+            lab = "rename" if role == "pack" else "replace"
+        ok = bool(ev.get("ok", False))
+        head = (lab, role, ok)
+        if lab == "write" and ok and self._last is not None and self._last[0] == head:
+            return                                   # a run of buffered writes: one event
+        e = {"op": lab, "role": role, "ok": ok}
+        e.update(self.fs_state())
+        self._last = (head, e)
+        self.events.append(e)
+
+    def run(self):
+        path, data = self.path, self.data
+
+        def go():
+            if path == "recv":
+                first = L.artefacts()["pack.blobs"]["info"][0][0].hex()
+                r = p_receive_pack(self.dir, data, first)
+                if r["unpack"] != "ok":
+                    raise UnpackFailed(r["unpack"])
+                return "ok"
+            from dulwich.object_store import DiskObjectStore
+            st = DiskObjectStore(self.dir)
+            try:
+                STORE_PATHS[path.split(".", 1)[1]](st, data)
+            finally:
+                st.close()
+            return "ok"
+        t0 = time.perf_counter()
+        s = self.sched.Scheduler(self.world, {0: go}, collect="exc")
+        with self.sched.Interposer(self.world):
+            s.run()
+        wall_ms = (time.perf_counter() - t0) * 1000
+        res = s.results[0]
+        post, bad = L.visible_disk(self.objdir)
+        packs, junk = L.pack_dir_state(self.objdir)
+        ev = list(self.events)
+        ev.append({"op": "ret", "role": "none", "ok": res.exc is None, **self.fs_state()})
+        exc = res.exc
+        oc = "ok" if exc is None else ("fatal" if exc in ("MemoryError", "RecursionError") else "error")
+        w = self.world
+        elig = [[e["op"], e.get("p")] for e in w.events if e.get("op") in w.MUTATING and tx_fault_pred(e["op"], e.get("p"))]
+        fired = w.fault.fired_at if w.fault is not None else None
+        shutil.rmtree(self.dir, ignore_errors=True)
+        return {"trace": ev, "exc": exc, "msg": res.exc_msg, "ncalls": w.ncalls.get(0, 0), "elig": elig,
+                "fired": ([KEY_OPS.get(fired["op"], fired["op"]), role_of(fired.get("p"))] if fired else None),
+                "event": {"path": path, "outcome": oc, "exc": exc, "msg": res.exc_msg, "pre": self.pre, "post": post, "bad": bad,
+                          "packs": [[p["pack"], p["idx"]] for p in packs], "junk": junk, "wall_ms": round(wall_ms, 2)}}
+
+
 # --------------------------------------------------------------------------- dispatch
 def run_case(env, c):
     k = c["kind"]
@@ -577,6 +732,9 @@ def run_case(env, c):
         return {"reads": {k2: _pack_result(v) for k2, v in r.items()}}
     if k == "bomb":
         return bomb_case(env, c["which"])
+    if k == "tx":
+        data = L.tx_scenarios()[c["scenario"]]
+        return TxRun(env, c["path"], data, c.get("k"), c.get("exc")).run()
     raise ValueError(k)
 
 
@@ -592,6 +750,7 @@ def main(argv):
     env = Env(scratch)
     with open(cases_path) as f:
         cases = json.load(f)
+    ndone = 0
     with open(out_path, "a") as out:
         for c in cases:
             out.write(json.dumps({"start": c["id"]}) + "\n")
@@ -606,7 +765,8 @@ def main(argv):
             r["id"] = c["id"]
             out.write(json.dumps(r, default=repr) + "\n")
             out.flush()
-            if env.n % 50 == 0:
+            ndone += 1
+            if ndone % 25 == 0:
                 gc.collect()
     shutil.rmtree(scratch, ignore_errors=True)
 
